@@ -299,10 +299,10 @@ fn eval(data: &[u8], st: &mut Stats, distinct: Distinct, origin: &str) {
 }
 
 pub fn run(cfg: &Cfg) -> Stats {
-    let (lc, lb, lb20, nstreams, maxlen) = match cfg.tier {
-        Tier::Tiny => (2u32, 2u32, 2u32, 40u64, 300usize),
-        Tier::Quick => (4, 3, 4, 20_000, 4096),
-        Tier::Thorough => (5, 4, 6, 2_000_000, 8192),
+    let (lc, lb, lb20, nstreams, maxlen, long_thr) = match cfg.tier {
+        Tier::Tiny => (2u32, 2u32, 2u32, 40u64, 300usize, 256usize),
+        Tier::Quick => (4, 3, 4, 20_000, 4096, 16384),
+        Tier::Thorough => (5, 4, 6, 2_000_000, 8192, 65536),
     };
     let mut st = par(cfg, |shard, n| {
         let mut st = Stats::new();
@@ -329,7 +329,11 @@ pub fn run(cfg: &Cfg) -> Stats {
             }
             let mut rng = Rng::new(cfg.seed, 0xC01_0000_0000 + id);
             let utf8_only = id % 3 == 0;
-            let s = gen::gen_stream(&mut rng, maxlen, utf8_only);
+            // every tenth stream is built around one LONG piece whose length sits on a power-of-two threshold
+            let s = if id % 10 == 9 { gen::gen_long_stream(&mut rng, long_thr, utf8_only) } else { gen::gen_stream(&mut rng, maxlen, utf8_only) };
+            if id % 10 == 9 {
+                st.count("long_threshold_streams");
+            }
             if id < 6 {
                 st.sample(6, || {
                     let mut o = J::obj();
